@@ -210,7 +210,7 @@ pub fn classify_ref(c: &RCase) -> Classes {
 fn ref_strategy(tier: Tier) -> BoxedStrategy<RCase> {
     let budget = tier.pick(64 * 1024u32, 2 * 1024 * 1024u32);
     let max_abs = tier.pick(20_000u32, 300_000u32);
-    (gen::mode3(), gen::content(), prop::collection::vec(hist::size(max_abs), 0..=20), prop_oneof![2 => 0u16..=3000, 1 => prop::sample::select(vec![0u16, 1, 31, 32, 33, 63, 64, 65, 128, 131])])
+    (gen::mode3(), gen::content(), prop::collection::vec(hist::size(max_abs), 0..=20), prop_oneof![2 => 0u16..=3000, 1 => crate::gen::select(vec![0u16, 1, 31, 32, 33, 63, 64, 65, 128, 131])])
         .prop_map(move |(mode, content, updates, out_len)| RCase { mode, content, budget, updates, out_len })
         .boxed()
 }
